@@ -1000,4 +1000,35 @@ theorem maxVal_spec (vs : List Value) (hnn : ∀ v ∈ vs, v ≠ .null) :
         · exact Value.cmp_trans _ _ _ (hm.2 v hv') h1'
 
 
+
+theorem mapE_fst {α β} (F : Nat × α → Except Err (Nat × β)) (hF : ∀ s v, F s = .ok v → v.1 = s.1)
+    (sets : List (Nat × α)) (vals : List (Nat × β)) (h : mapE F sets = .ok vals) :
+    vals.map (·.1) = sets.map (·.1) := by
+  induction sets generalizing vals with
+  | nil => simp [mapE] at h; simp [h]
+  | cons s ss ih =>
+    simp only [mapE] at h
+    cases hs : F s with
+    | error e => simp [hs] at h
+    | ok v =>
+      simp only [hs] at h
+      cases hr : mapE F ss with
+      | error e => simp [hr] at h
+      | ok rest =>
+        simp only [hr, Except.ok.injEq] at h
+        subst h
+        simp only [List.map_cons]
+        rw [ih rest hr, hF s v hs]
+
+theorem evalSets_fst (tys : List Ty) (row : Row) (sets : List (Nat × Expr)) (vals : List (Nat × Value))
+    (h : evalSets {} tys row sets = .ok vals) : vals.map (·.1) = sets.map (·.1) := by
+  refine mapE_fst _ ?_ sets vals h
+  intro s v hv
+  split at hv
+  · simp at hv
+  · split at hv
+    · simp at hv
+    · simp only [Except.ok.injEq] at hv
+      rw [← hv]
+
 end AxVerif.Sql
